@@ -187,6 +187,12 @@ class C07(Prop):
         if tier == "thorough":
             for c in self.exhaustive():
                 yield c
+        else:
+            # the quick tier takes the part of the sweep that is small: axes of 2-3 integer labels in every stored order,
+            # ONE requested label (present or not), both methods
+            for c in self.exhaustive():
+                if c["_how"] == "exh_method" and len(c["labels"]) == 1 and c["array"]["axes"][0]["kind"] == "i" and len(c["array"]["axes"][0]["labels"]) >= 2:
+                    yield c
 
     # ------------------------------------------------------------------
     def impl(self, c):
